@@ -28,7 +28,23 @@ def window_ends(wav_asc):
     return pos
 
 
-def run_once(ctx, mono, d, truth, order_names, lo, hi, chunk, wit0, default_window=False, wunit=None, pre='absent'):
+READS = [0]
+
+
+def install(ctx):
+    """counts SED.read calls: how many passes over the SED files a run made is *observed* (chunking is not inferred from
+    the package's memory formula)"""
+    from sedfitter.sed import SED
+
+    def read_post(cls, filename, result):
+        READS[0] += 1
+        return True
+
+    probe.attach(SED, 'read', ensure=read_post)
+
+
+def run_once(ctx, mono, d, truth, order_names, lo, hi, ram_units, wit0, default_window=False, wunit=None, pre='absent'):
+    """ram_units: the memory limit, in units of one wavelength of float32 flux+error for all models and apertures"""
     n_w = truth.n_wav
     wav_desc = truth.wav[::-1]
     must = [j for j in range(n_w) if lo < wav_desc[j] < hi]
@@ -40,8 +56,8 @@ def run_once(ctx, mono, d, truth, order_names, lo, hi, chunk, wit0, default_wind
     shutil.rmtree(os.path.join(d, 'convolved'), ignore_errors=True)
     if pre == 'empty':          # the sub-directory is already there
         os.mkdir(os.path.join(d, 'convolved'))
-    max_ram = (chunk + 0.5) * 8.0 * truth.n_models * truth.n_ap / 1024. ** 3
-    wit = dict(wit0, window=(lo, hi), chunk=chunk, wav_desc=wav_desc, must=[j + 1 for j in must], may=[j + 1 for j in may],
+    max_ram = ram_units * 8.0 * truth.n_models * truth.n_ap / 1024. ** 3
+    wit = dict(wit0, window=(lo, hi), memory_limit_in_wavelengths_of_float32=ram_units, max_ram_gb=max_ram, wav_desc=wav_desc, must=[j + 1 for j in must], may=[j + 1 for j in may],
                window_unit=str(wunit or 'micron'), convolved_dir=pre)
     if default_window:
         kw = {}
@@ -51,12 +67,24 @@ def run_once(ctx, mono, d, truth, order_names, lo, hi, chunk, wit0, default_wind
         kw = dict(wav_min=(lo * u.micron).to(wunit), wav_max=(hi * u.micron).to(wunit))
     table = None
     exc = None
+    r0 = READS[0]
     with effects.trace() as tr:
         try:
             table = mono(d, max_ram=max_ram, **kw)
         except Exception as e:
             exc = e
     ctx.event('mono:run')
+    reads = READS[0] - r0
+    # passes over the SED files (one read of one file is spent on finding the wavelengths): observed, not inferred
+    passes = None if reads == 0 else max(0, int(round((reads - 1) / float(truth.n_models))))
+    wit['sed_reads'] = reads
+    wit['passes_over_the_seds'] = passes
+    nothing_written = not (os.path.isdir(os.path.join(d, 'convolved')) and os.listdir(os.path.join(d, 'convolved')))
+    if exc is not None and nothing_written and must and ram_units * 8.0 < 16.0 and reads <= 1:
+        # a limit below one wavelength of float64 flux+error, refused before any pass over the SEDs started: it may hold no
+        # chunk at all (the package itself refuses such limits), i.e. it yields no chunk size: outside the quantifier
+        ctx.event('limit-too-small:refused')
+        return None
     wrote = sorted(set(os.path.basename(p) for p in tr.produced(under=os.path.join(d, 'convolved'))))
     ondisk = sorted(os.listdir(os.path.join(d, 'convolved'))) if os.path.isdir(os.path.join(d, 'convolved')) else []
     # the files present afterwards are what "writes exactly one file per wavelength" is about; a file that was opened
@@ -100,12 +128,15 @@ def run_once(ctx, mono, d, truth, order_names, lo, hi, chunk, wit0, default_wind
     if missing or extra:
         kind = 'missing' if missing else 'extra'
         last = (max(must) + 1) in missing if must else False
-        key = 'files:%s%s' % (kind, ':chunked' if chunk < n_w else ':single-chunk')
+        key = 'files:%s%s' % (kind, ':chunked' if (passes or 0) > 1 else ':single-chunk')
         ctx.violation(key, 'not exactly one file per SED wavelength inside the window (missing MO%s, extra MO%s)' % (missing, extra),
                       dict(wit, written=wrote, missing=missing, extra=extra))
     if len(must) == 1:
         ctx.regime('window:single')
-    ctx.regime('chunk<n' if chunk < n_w else 'chunk=n')
+    if passes is not None and len(must) >= 2:
+        ctx.regime('chunk<n' if passes > 1 else 'chunk=n')
+        if passes >= len(must):
+            ctx.regime('chunk=1')
     # contents
     rows = [truth.index(n) for n in order_names]
     for j in idx:
@@ -143,19 +174,21 @@ def run_once(ctx, mono, d, truth, order_names, lo, hi, chunk, wit0, default_wind
 
 def run(ctx):
     rng = ctx.rng
+    install(ctx)
     from sedfitter.convolve import convolve_model_dir_monochromatic as mono
     nexh = 3 if ctx.quick else 6
     ctx.rule = ('per-file packages with 2..9 wavelengths, 1..3 apertures, 1..5 models; every window whose ends lie below/on/between/above the tabulated '
-                'wavelengths (exhaustive for n_wav<=%d, sampled above) x every chunk size 1..n_wav (via max_ram) + the default window; file set and contents '
+                'wavelengths (exhaustive for n_wav<=%d, sampled above) x a ladder of memory limits reaching every chunk size 1..n_wav (chunking observed as passes over the SED files) + the default window; file set and contents '
                 'must be identical across chunk sizes. a case = one (window, chunk) run; non-trivial = >=1 wavelength strictly inside') % nexh
     ctx.exhaustive = True
     ctx.extra['exhaustive_subspace'] = 'windows x chunk sizes for n_wav <= %d' % nexh
     ctx.assume('a window end exactly on a tabulated wavelength: including or excluding it are both accepted (docstring: exclusive; code: inclusive below)',
                'an empty window must write zero files; returning an empty table or raising are both accepted',
-               'file-effect trace: sys.addaudithook open/remove events')
+               'file-effect trace: sys.addaudithook open/remove events',
+               'a memory limit below one wavelength of float64 flux+error that is refused before any pass over the SEDs yields no chunk size: outside the quantifier')
     ctx.require_events('mono:run', 'file:checked', 'chunk-invariance', 'cube:nearest-slice')
-    ctx.require_regimes('window:empty', 'window:single', 'chunk<n', 'chunk=n', 'window:default', 'window:other-unit', 'convolved-dir:pre-existing',
-                        'package:sed-subdirectories', 'cube:no-uncertainties', 'cube:named-and-wavelength-filters', 'cube:aperture-dependent')
+    ctx.require_regimes('window:empty', 'window:single', 'chunk<n', 'chunk=n', 'chunk=1', 'window:default', 'window:other-unit', 'convolved-dir:pre-existing',
+                        'package:sed-subdirectories', 'cube:no-uncertainties', 'cube:named-and-wavelength-filters', 'cube:aperture-dependent', 'cube:filter-other-unit')
     ipk = 0
     sizes = list(range(2, nexh + 1)) + ([6, 9] if ctx.quick else [7, 8, 9])
     for n_w in sizes:
@@ -181,7 +214,9 @@ def run(ctx):
                 windows = [windows[i] for i in sel]
             for (lo, hi) in windows:
                 sets = {}
-                chunks = list(range(1, n_w + 1)) if n_w <= nexh else sorted(set([1, 2, n_w // 2 + 1, n_w]))
+                # memory limits: a ladder from one wavelength of float32 flux+error up to twice the whole SED, so that chunk sizes
+                # 1..n_wav are reached whatever bytes-per-value the package accounts for (4 today; 8 would be honest for float64)
+                chunks = list(range(1, 2 * n_w + 2)) if n_w <= nexh else sorted(set([1, 2, 3, n_w // 2 + 1, n_w, n_w + 2, 2 * n_w, 2 * n_w + 1]))
                 wunit = [None, None, u.nm, u.mm, u.AA][int(rng.integers(5))]
                 if wunit is not None:
                     ctx.regime('window:other-unit')
@@ -189,7 +224,7 @@ def run(ctx):
                     pre = 'empty' if rng.random() < 0.3 else 'absent'
                     if pre == 'empty':
                         ctx.regime('convolved-dir:pre-existing')
-                    wrote = run_once(ctx, mono, d, truth, order_names, lo, hi, c, wit0, wunit=wunit, pre=pre)
+                    wrote = run_once(ctx, mono, d, truth, order_names, lo, hi, c + 0.5, wit0, wunit=wunit, pre=pre)
                     inside = sum(1 for w in truth.wav if lo < w < hi)
                     ctx.case(('win', ipk, lo, hi, c, ctx.shard), nontrivial=inside >= 1,
                              sample=dict(wit0, window=(lo, hi), chunk=c, wav=truth.wav, written=wrote) if inside == 1 and len(ctx.samples) < 2 else None)
@@ -200,9 +235,9 @@ def run(ctx):
                                   dict(wit0, window=(lo, hi), by_chunk={str(k): v for k, v in sets.items()}))
                 ctx.event('chunk-invariance')
             # default window: everything
-            for c in (1, n_w):
+            for c in (1, n_w, 2 * n_w + 1):
                 ctx.regime('window:default')
-                run_once(ctx, mono, d, truth, order_names, -np.inf, np.inf, c, wit0, default_window=True)
+                run_once(ctx, mono, d, truth, order_names, -np.inf, np.inf, c + 0.5, wit0, default_window=True)
                 ctx.case(('default', ipk, c, ctx.shard), nontrivial=True)
             ctx.rmdir(d)
 
@@ -232,7 +267,11 @@ def run(ctx):
         if not req:
             continue
         lw, lc = gen.make_law_arrays(rng, n=10, lo=0.01, hi=1e4)
-        flist = [w * u.micron for w in req]
+        # the wavelength "filters" may be given in any length unit
+        funits = [[u.micron, u.nm, u.AA, u.mm][int(rng.integers(4))] if it % 2 else u.micron for _ in req]
+        flist = [(w * u.micron).to(fu_) for w, fu_ in zip(req, funits)]
+        if any(fu_ != u.micron for fu_ in funits):
+            ctx.regime('cube:filter-other-unit')
         named = {}
         if it % 2 == 0:
             # a named (convolved) filter among the wavelengths, at a random position of the list
@@ -265,7 +304,7 @@ def run(ctx):
                     ctx.violation('cube:named-filter-wrong-column', 'a named filter listed among wavelength filters did not get its own convolved fluxes',
                                   {'requested': [str(x) for x in flist], 'position': f})
                 continue
-            w = float(w.value)
+            w = float(w.to(u.micron).value)
             j = int(np.argmin(np.abs(truth.wav - w)))
             ctx.event('cube:nearest-slice')
             if multi:
